@@ -144,6 +144,12 @@ def holdsC01exact (segs : List OSeg) (o : BindObs) : Bool :=
   if !(o.prepOk && o.bindOk) || o.events == 0 || !inputsOnly segs || !cleanForTokens segs then true
   else matchInputsOnly segs o.sql 0
 
+/-- no db tag of the type table contains the text `sqlair_`: generated column names come
+    from tags, and a tag may be any quoted text (`c03_tokens_false_of_model`,
+    `c05_tokens_false_of_model` are the witnesses that the token predicates need this) -/
+def tagsClean (tt : TypeTable) : Bool :=
+  tt.all fun td => td.fields.all fun f => !(containsSub f.tag "sqlair_")
+
 /-- C03: placeholders and named arguments correspond one to one -/
 def holdsC03 (segs : List OSeg) (o : BindObs) : Bool :=
   if !(o.prepOk && o.bindOk) || o.mode == "none" || !cleanForTokens segs then true else
